@@ -7,10 +7,15 @@
 //!   tri V A B C          the three pairwise cmp / ==
 //!   any VA A VB B        through the `Nlri` enum (variants may differ)
 //!   anytri VA A VB B VC C
+//!   vcmp V TOKENS / TOKENS           two values given field by field (C05's `val` tokens), built
+//!   vtri V TOKENS / TOKENS / TOKENS  through serde Deserialize – the way to obtain values no parser
+//!                        returns (an `afi` that is not the family's inside IpvNFlowSpecNlri, label
+//!                        octets that are not whole labels, EvpnRouteType::Unimplemented(1..=5), route
+//!                        targets of any length); compared typed AND wrapped in the `Nlri` enum
 //! A, B, C are canonical wire encodings of one NLRI each (reference encoder of
 //! c05.rs), so two of them denote equal values exactly when the hex strings
 //! are equal – that is what the oracle holds `==` against.
-use super::c05::{gen_addr, gen_fs_components, gen_labels, gen_val, host_zero, ref_enc, ref_wf, unhex_strict, variant, Shape, Val, Var, VARIANTS};
+use super::c05::{buildable, ref_dec, gen_addr, gen_fs_components, gen_labels, gen_val, host_zero, read, ref_enc, ref_wf, show, to_json, unhex_strict, variant, Shape, Val, Var, VARIANTS};
 use crate::common::*;
 use octseq::Parser;
 use routecore::bgp::nlri::afisafi::*;
@@ -45,6 +50,38 @@ fn fix_afi(mut v: serde_json::Value) -> serde_json::Value {
 }
 
 type Typed = fn(&Vec<u8>, &Vec<u8>) -> Option<String>;
+/// two or three values of one variant, each given as the JSON serde builds it from
+type Built = fn(&[String]) -> String;
+
+macro_rules! built {
+    ([$($owned:tt)+]) => {
+        |js: &[String]| -> String {
+            let vs: Vec<$($owned)+> = js.iter().map(|j| serde_json::from_str(j).expect("serde build")).collect();
+            let es: Vec<Nlri<Vec<u8>>> = vs.iter().map(|v| Nlri::<Vec<u8>>::from(v.clone())).collect();
+            if vs.len() == 2 {
+                let (x, y) = (&vs[0], &vs[1]);
+                let eq = x == y;
+                let c = x.cmp(y);
+                let r = y.cmp(x);
+                let hs = h64(x) == h64(y);
+                #[allow(clippy::nonminimal_bool)]
+                let pc = x.partial_cmp(y) == Some(c) && y.partial_cmp(x) == Some(r) && (x != y) == !eq && (y == x) == eq
+                    && (x < y) == (c == Ordering::Less) && (x <= y) == (c != Ordering::Greater)
+                    && (x > y) == (c == Ordering::Greater) && (x >= y) == (c != Ordering::Less)
+                    // the same two values inside the enum
+                    && (es[0] == es[1]) == eq && es[0].cmp(&es[1]) == c && es[1].cmp(&es[0]) == r
+                    && es[0].partial_cmp(&es[1]) == Some(c) && (h64(&es[0]) == h64(&es[1])) == hs;
+                format!("eq={} cmp={} rev={} hash={} pcmp={}", eq, ord(c), ord(r), if hs { "same" } else { "diff" }, if pc { "ok" } else { "BAD" })
+            } else {
+                let (a, b, c) = (&vs[0], &vs[1], &vs[2]);
+                let t = format!("ab={} bc={} ac={} eqab={} eqbc={} eqac={}", ord(a.cmp(b)), ord(b.cmp(c)), ord(a.cmp(c)), a == b, b == c, a == c);
+                let e = format!("ab={} bc={} ac={} eqab={} eqbc={} eqac={}", ord(es[0].cmp(&es[1])), ord(es[1].cmp(&es[2])), ord(es[0].cmp(&es[2])),
+                    es[0] == es[1], es[1] == es[2], es[0] == es[2]);
+                if t == e { t } else { format!("{} ENUM-BAD", t) }
+            }
+        }
+    };
+}
 
 macro_rules! typed {
     ([$($t:tt)+], [$($owned:tt)+]) => {
@@ -76,36 +113,36 @@ macro_rules! typed {
     };
 }
 // (variant name, NlriType, typed comparison)
-static TABLE: &[(&str, NlriType, Typed)] = &[
-    ("Ipv4Unicast", NlriType::Ipv4Unicast, typed!([Ipv4UnicastNlri], [Ipv4UnicastNlri]) as Typed),
-    ("Ipv4UnicastAddpath", NlriType::Ipv4UnicastAddpath, typed!([Ipv4UnicastAddpathNlri], [Ipv4UnicastAddpathNlri]) as Typed),
-    ("Ipv4Multicast", NlriType::Ipv4Multicast, typed!([Ipv4MulticastNlri], [Ipv4MulticastNlri]) as Typed),
-    ("Ipv4MulticastAddpath", NlriType::Ipv4MulticastAddpath, typed!([Ipv4MulticastAddpathNlri], [Ipv4MulticastAddpathNlri]) as Typed),
-    ("Ipv4MplsUnicast", NlriType::Ipv4MplsUnicast, typed!([Ipv4MplsUnicastNlri], [Ipv4MplsUnicastNlri<Vec<u8>>]) as Typed),
-    ("Ipv4MplsUnicastAddpath", NlriType::Ipv4MplsUnicastAddpath, typed!([Ipv4MplsUnicastAddpathNlri], [Ipv4MplsUnicastAddpathNlri<Vec<u8>>]) as Typed),
-    ("Ipv4MplsVpnUnicast", NlriType::Ipv4MplsVpnUnicast, typed!([Ipv4MplsVpnUnicastNlri], [Ipv4MplsVpnUnicastNlri<Vec<u8>>]) as Typed),
-    ("Ipv4MplsVpnUnicastAddpath", NlriType::Ipv4MplsVpnUnicastAddpath, typed!([Ipv4MplsVpnUnicastAddpathNlri], [Ipv4MplsVpnUnicastAddpathNlri<Vec<u8>>]) as Typed),
-    ("Ipv4RouteTarget", NlriType::Ipv4RouteTarget, typed!([Ipv4RouteTargetNlri], [Ipv4RouteTargetNlri<Vec<u8>>]) as Typed),
-    ("Ipv4RouteTargetAddpath", NlriType::Ipv4RouteTargetAddpath, typed!([Ipv4RouteTargetAddpathNlri], [Ipv4RouteTargetAddpathNlri<Vec<u8>>]) as Typed),
-    ("Ipv4FlowSpec", NlriType::Ipv4FlowSpec, typed!([Ipv4FlowSpecNlri], [Ipv4FlowSpecNlri<Vec<u8>>]) as Typed),
-    ("Ipv4FlowSpecAddpath", NlriType::Ipv4FlowSpecAddpath, typed!([Ipv4FlowSpecAddpathNlri], [Ipv4FlowSpecAddpathNlri<Vec<u8>>]) as Typed),
-    ("Ipv6Unicast", NlriType::Ipv6Unicast, typed!([Ipv6UnicastNlri], [Ipv6UnicastNlri]) as Typed),
-    ("Ipv6UnicastAddpath", NlriType::Ipv6UnicastAddpath, typed!([Ipv6UnicastAddpathNlri], [Ipv6UnicastAddpathNlri]) as Typed),
-    ("Ipv6Multicast", NlriType::Ipv6Multicast, typed!([Ipv6MulticastNlri], [Ipv6MulticastNlri]) as Typed),
-    ("Ipv6MulticastAddpath", NlriType::Ipv6MulticastAddpath, typed!([Ipv6MulticastAddpathNlri], [Ipv6MulticastAddpathNlri]) as Typed),
-    ("Ipv6MplsUnicast", NlriType::Ipv6MplsUnicast, typed!([Ipv6MplsUnicastNlri], [Ipv6MplsUnicastNlri<Vec<u8>>]) as Typed),
-    ("Ipv6MplsUnicastAddpath", NlriType::Ipv6MplsUnicastAddpath, typed!([Ipv6MplsUnicastAddpathNlri], [Ipv6MplsUnicastAddpathNlri<Vec<u8>>]) as Typed),
-    ("Ipv6MplsVpnUnicast", NlriType::Ipv6MplsVpnUnicast, typed!([Ipv6MplsVpnUnicastNlri], [Ipv6MplsVpnUnicastNlri<Vec<u8>>]) as Typed),
-    ("Ipv6MplsVpnUnicastAddpath", NlriType::Ipv6MplsVpnUnicastAddpath, typed!([Ipv6MplsVpnUnicastAddpathNlri], [Ipv6MplsVpnUnicastAddpathNlri<Vec<u8>>]) as Typed),
-    ("Ipv6FlowSpec", NlriType::Ipv6FlowSpec, typed!([Ipv6FlowSpecNlri], [Ipv6FlowSpecNlri<Vec<u8>>]) as Typed),
-    ("Ipv6FlowSpecAddpath", NlriType::Ipv6FlowSpecAddpath, typed!([Ipv6FlowSpecAddpathNlri], [Ipv6FlowSpecAddpathNlri<Vec<u8>>]) as Typed),
-    ("L2VpnVpls", NlriType::L2VpnVpls, typed!([L2VpnVplsNlri], [L2VpnVplsNlri]) as Typed),
-    ("L2VpnVplsAddpath", NlriType::L2VpnVplsAddpath, typed!([L2VpnVplsAddpathNlri], [L2VpnVplsAddpathNlri]) as Typed),
-    ("L2VpnEvpn", NlriType::L2VpnEvpn, typed!([L2VpnEvpnNlri], [L2VpnEvpnNlri<Vec<u8>>]) as Typed),
-    ("L2VpnEvpnAddpath", NlriType::L2VpnEvpnAddpath, typed!([L2VpnEvpnAddpathNlri], [L2VpnEvpnAddpathNlri<Vec<u8>>]) as Typed),
+static TABLE: &[(&str, NlriType, Typed, Built)] = &[
+    ("Ipv4Unicast", NlriType::Ipv4Unicast, typed!([Ipv4UnicastNlri], [Ipv4UnicastNlri]) as Typed, built!([Ipv4UnicastNlri]) as Built),
+    ("Ipv4UnicastAddpath", NlriType::Ipv4UnicastAddpath, typed!([Ipv4UnicastAddpathNlri], [Ipv4UnicastAddpathNlri]) as Typed, built!([Ipv4UnicastAddpathNlri]) as Built),
+    ("Ipv4Multicast", NlriType::Ipv4Multicast, typed!([Ipv4MulticastNlri], [Ipv4MulticastNlri]) as Typed, built!([Ipv4MulticastNlri]) as Built),
+    ("Ipv4MulticastAddpath", NlriType::Ipv4MulticastAddpath, typed!([Ipv4MulticastAddpathNlri], [Ipv4MulticastAddpathNlri]) as Typed, built!([Ipv4MulticastAddpathNlri]) as Built),
+    ("Ipv4MplsUnicast", NlriType::Ipv4MplsUnicast, typed!([Ipv4MplsUnicastNlri], [Ipv4MplsUnicastNlri<Vec<u8>>]) as Typed, built!([Ipv4MplsUnicastNlri<Vec<u8>>]) as Built),
+    ("Ipv4MplsUnicastAddpath", NlriType::Ipv4MplsUnicastAddpath, typed!([Ipv4MplsUnicastAddpathNlri], [Ipv4MplsUnicastAddpathNlri<Vec<u8>>]) as Typed, built!([Ipv4MplsUnicastAddpathNlri<Vec<u8>>]) as Built),
+    ("Ipv4MplsVpnUnicast", NlriType::Ipv4MplsVpnUnicast, typed!([Ipv4MplsVpnUnicastNlri], [Ipv4MplsVpnUnicastNlri<Vec<u8>>]) as Typed, built!([Ipv4MplsVpnUnicastNlri<Vec<u8>>]) as Built),
+    ("Ipv4MplsVpnUnicastAddpath", NlriType::Ipv4MplsVpnUnicastAddpath, typed!([Ipv4MplsVpnUnicastAddpathNlri], [Ipv4MplsVpnUnicastAddpathNlri<Vec<u8>>]) as Typed, built!([Ipv4MplsVpnUnicastAddpathNlri<Vec<u8>>]) as Built),
+    ("Ipv4RouteTarget", NlriType::Ipv4RouteTarget, typed!([Ipv4RouteTargetNlri], [Ipv4RouteTargetNlri<Vec<u8>>]) as Typed, built!([Ipv4RouteTargetNlri<Vec<u8>>]) as Built),
+    ("Ipv4RouteTargetAddpath", NlriType::Ipv4RouteTargetAddpath, typed!([Ipv4RouteTargetAddpathNlri], [Ipv4RouteTargetAddpathNlri<Vec<u8>>]) as Typed, built!([Ipv4RouteTargetAddpathNlri<Vec<u8>>]) as Built),
+    ("Ipv4FlowSpec", NlriType::Ipv4FlowSpec, typed!([Ipv4FlowSpecNlri], [Ipv4FlowSpecNlri<Vec<u8>>]) as Typed, built!([Ipv4FlowSpecNlri<Vec<u8>>]) as Built),
+    ("Ipv4FlowSpecAddpath", NlriType::Ipv4FlowSpecAddpath, typed!([Ipv4FlowSpecAddpathNlri], [Ipv4FlowSpecAddpathNlri<Vec<u8>>]) as Typed, built!([Ipv4FlowSpecAddpathNlri<Vec<u8>>]) as Built),
+    ("Ipv6Unicast", NlriType::Ipv6Unicast, typed!([Ipv6UnicastNlri], [Ipv6UnicastNlri]) as Typed, built!([Ipv6UnicastNlri]) as Built),
+    ("Ipv6UnicastAddpath", NlriType::Ipv6UnicastAddpath, typed!([Ipv6UnicastAddpathNlri], [Ipv6UnicastAddpathNlri]) as Typed, built!([Ipv6UnicastAddpathNlri]) as Built),
+    ("Ipv6Multicast", NlriType::Ipv6Multicast, typed!([Ipv6MulticastNlri], [Ipv6MulticastNlri]) as Typed, built!([Ipv6MulticastNlri]) as Built),
+    ("Ipv6MulticastAddpath", NlriType::Ipv6MulticastAddpath, typed!([Ipv6MulticastAddpathNlri], [Ipv6MulticastAddpathNlri]) as Typed, built!([Ipv6MulticastAddpathNlri]) as Built),
+    ("Ipv6MplsUnicast", NlriType::Ipv6MplsUnicast, typed!([Ipv6MplsUnicastNlri], [Ipv6MplsUnicastNlri<Vec<u8>>]) as Typed, built!([Ipv6MplsUnicastNlri<Vec<u8>>]) as Built),
+    ("Ipv6MplsUnicastAddpath", NlriType::Ipv6MplsUnicastAddpath, typed!([Ipv6MplsUnicastAddpathNlri], [Ipv6MplsUnicastAddpathNlri<Vec<u8>>]) as Typed, built!([Ipv6MplsUnicastAddpathNlri<Vec<u8>>]) as Built),
+    ("Ipv6MplsVpnUnicast", NlriType::Ipv6MplsVpnUnicast, typed!([Ipv6MplsVpnUnicastNlri], [Ipv6MplsVpnUnicastNlri<Vec<u8>>]) as Typed, built!([Ipv6MplsVpnUnicastNlri<Vec<u8>>]) as Built),
+    ("Ipv6MplsVpnUnicastAddpath", NlriType::Ipv6MplsVpnUnicastAddpath, typed!([Ipv6MplsVpnUnicastAddpathNlri], [Ipv6MplsVpnUnicastAddpathNlri<Vec<u8>>]) as Typed, built!([Ipv6MplsVpnUnicastAddpathNlri<Vec<u8>>]) as Built),
+    ("Ipv6FlowSpec", NlriType::Ipv6FlowSpec, typed!([Ipv6FlowSpecNlri], [Ipv6FlowSpecNlri<Vec<u8>>]) as Typed, built!([Ipv6FlowSpecNlri<Vec<u8>>]) as Built),
+    ("Ipv6FlowSpecAddpath", NlriType::Ipv6FlowSpecAddpath, typed!([Ipv6FlowSpecAddpathNlri], [Ipv6FlowSpecAddpathNlri<Vec<u8>>]) as Typed, built!([Ipv6FlowSpecAddpathNlri<Vec<u8>>]) as Built),
+    ("L2VpnVpls", NlriType::L2VpnVpls, typed!([L2VpnVplsNlri], [L2VpnVplsNlri]) as Typed, built!([L2VpnVplsNlri]) as Built),
+    ("L2VpnVplsAddpath", NlriType::L2VpnVplsAddpath, typed!([L2VpnVplsAddpathNlri], [L2VpnVplsAddpathNlri]) as Typed, built!([L2VpnVplsAddpathNlri]) as Built),
+    ("L2VpnEvpn", NlriType::L2VpnEvpn, typed!([L2VpnEvpnNlri], [L2VpnEvpnNlri<Vec<u8>>]) as Typed, built!([L2VpnEvpnNlri<Vec<u8>>]) as Built),
+    ("L2VpnEvpnAddpath", NlriType::L2VpnEvpnAddpath, typed!([L2VpnEvpnAddpathNlri], [L2VpnEvpnAddpathNlri<Vec<u8>>]) as Typed, built!([L2VpnEvpnAddpathNlri<Vec<u8>>]) as Built),
 ];
 
-fn lookup(name: &str) -> Option<&'static (&'static str, NlriType, Typed)> { TABLE.iter().find(|r| r.0 == name) }
+fn lookup(name: &str) -> Option<&'static (&'static str, NlriType, Typed, Built)> { TABLE.iter().find(|r| r.0 == name) }
 
 fn any<'a>(ty: NlriType, raw: &'a Vec<u8>) -> Option<Nlri<&'a [u8]>> {
     NlriEnumIter::new(Parser::from_ref(raw), ty).next()?.ok()
@@ -179,8 +216,8 @@ fn perturb(rng: &mut Rng, var: &Var, v: &Val) -> Val {
             if var.shape == Shape::Evpn && rng.chance(1, 3) { w.t = *rng.pick(&[0u64, 1, 2, 3, 4, 5, 6, 7, 255]); }
             else { match rng.below(3) {
                 0 => { if !w.raw.is_empty() { let i = rng.usize(0, w.raw.len() - 1); w.raw[i] ^= 1 << rng.below(8); } }
-                1 => { if w.raw.len() < 31 { w.raw.push(rng.u8()); } }
-                _ => { let k = rng.usize(0, w.raw.len()); w.raw.truncate(k); }
+                1 => { if w.raw.len() < 31 { w.raw.push(rng.u8()); if var.shape == Shape::Rt && w.raw.len() < 4 { w.raw.extend(rng.bytes(4 - w.raw.len())); } } }
+                _ => { let mut k = rng.usize(0, w.raw.len()); if var.shape == Shape::Rt && k < 4 { k = 0; } w.raw.truncate(k); }
             } }
         }
         Shape::Fs => {
@@ -201,7 +238,7 @@ fn perturb(rng: &mut Rng, var: &Var, v: &Val) -> Val {
             _ => w.lb = rng.edgy((1 << 24) - 1),
         },
     }
-    if ref_wf(var.shape, var.v6, &w) && (var.shape != Shape::Rt || w.raw.len() <= 31) { w } else { v.clone() }
+    if ref_wf(var.shape, var.v6, &w) { w } else { v.clone() }
 }
 
 fn small_val(rng: &mut Rng, var: &Var) -> Val {
@@ -262,7 +299,8 @@ impl Prop for C14 {
                     ra[j] = ra[j] | 0x10; rb[j] = ra[j] & 0xef;         // a > b on the late octet
                     a.raw = ra.clone(); b.raw = rb.clone();
                     let mut c = small_val(rng, var);
-                    let cut = rng.usize(i + 1, full - 1);
+                    // (route targets: 4..=12 octets are the lengths RFC 4684 defines; shorter ones go through `vtri`)
+                    let cut = rng.usize(if var.shape == Shape::Rt { 4.max(i + 1) } else { i + 1 }, full - 1);
                     let mut rc = ra[..cut].to_vec();
                     if rng.bool() { rc.push(0xff); } else if rng.bool() { rc.push(0x00); }
                     c.raw = rc;
@@ -307,6 +345,49 @@ impl Prop for C14 {
             let c = if vc.name == va.name { perturb(rng, va, &a) } else if vc.name == vb.name { perturb(rng, vb, &b) } else { small_val(rng, vc) };
             out.push(format!("anytri {} {} {} {} {} {}", va.name, enc(va, &a), vb.name, enc(vb, &b), vc.name, enc(vc, &c)));
         }
+        // values built through serde, in particular those no parser returns
+        for var in &vars {
+            let odd = |rng: &mut Rng, v: &mut Val| {
+                match var.shape {
+                    // label octets that are not a whole number of labels / do not stop where the parser would
+                    Shape::Mpls | Shape::Vpn => { let n = *rng.pick(&[0usize, 1, 2, 4, 5, 7, 33]); v.labels = rng.bytes(n); }
+                    // an afi that is not the family's
+                    Shape::Fs => { v.afi = *rng.pick(&[1u64, 2, 25, 0, 3, 65535]); if v.raw.len() > 24 { v.raw.truncate(24); } }
+                    // Unimplemented(1..=5) next to the named variants
+                    Shape::Evpn => { v.t = *rng.pick(&[1u64, 2, 5, 257, 258, 261, 0, 6, 255]); if v.raw.len() > 24 { v.raw.truncate(24); } }
+                    // route targets of lengths RFC 4684 does not define
+                    Shape::Rt => { let n = *rng.pick(&[1usize, 2, 3, 13, 31, 32, 40]); v.raw = rng.bytes(n); }
+                    _ => {}
+                }
+            };
+            let n = if matches!(var.shape, Shape::Pfx | Shape::Vpls) { 10 } else { 60 };
+            for k in 0..(n * scale) {
+                let mut a = small_val(rng, var);
+                if var.shape == Shape::Fs && a.raw.len() > 24 { a.raw = if var.v6 { rng.bytes(9) } else { gen_fs_components(rng, 9) }; }
+                odd(rng, &mut a);
+                // b: equal, or differing in the odd field only, or in something else
+                let mut b = a.clone();
+                match rng.below(4) { 0 => {}, 1 | 2 => odd(rng, &mut b), _ => { let sv = small_val(rng, var); b = perturb(rng, var, &sv); odd(rng, &mut b); } }
+                if var.shape == Shape::Fs || var.shape == Shape::Evpn { if rng.chance(1, 3) { b.raw = a.raw.clone(); } }
+                if !buildable(var.shape, var.v6, &a) || !buildable(var.shape, var.v6, &b) { continue; }
+                if k % 3 != 0 {
+                    out.push(format!("vcmp {} {} / {}", var.name, show(var.shape, &a), show(var.shape, &b)));
+                } else {
+                    let mut c = if rng.bool() { a.clone() } else { b.clone() };
+                    odd(rng, &mut c);
+                    if rng.bool() && !c.raw.is_empty() { let i = rng.usize(0, c.raw.len() - 1); c.raw[i] ^= 1 << rng.below(8); }
+                    if var.ap && rng.chance(1, 3) { c.pid = Some(rng.below(3)); }
+                    if !buildable(var.shape, var.v6, &c) { continue; }
+                    let mut t = [a, b, c];
+                    if rng.bool() { t.swap(0, 2); }
+                    if rng.bool() { t.swap(1, 2); }
+                    out.push(format!("vtri {} {} / {} / {}", var.name, show(var.shape, &t[0]), show(var.shape, &t[1]), show(var.shape, &t[2])));
+                }
+            }
+        }
+        out.push("vcmp Ipv4FlowSpec afi=1 raw=038106 / afi=2 raw=038106".into()); // F31
+        out.push("vcmp Ipv4Unicast p=24/01020304 / p=24/01020300".into()); // not buildable
+        out.push("vcmp Ipv4Unicast p=24/01020300".into());
         out.push("cmp Ipv4Unicast zz 00".into());
         out.push("any Ipv4Unicast 00 Ipv9Unicast 00".into());
         let _ = host_zero;
@@ -342,22 +423,60 @@ impl Prop for C14 {
                     _ => "err".into(),
                 }
             }
+            [op @ ("vcmp" | "vtri"), v, rest @ ..] => {
+                let (Some(row), Some(var)) = (lookup(v), variant(v)) else { return "bad-op".into() };
+                let groups: Vec<&[&str]> = rest.split(|t| *t == "/").collect();
+                if groups.len() != if *op == "vcmp" { 2 } else { 3 } { return "bad-op".into(); }
+                let mut js = Vec::new();
+                for g in groups {
+                    match read(var.shape, var.ap, g) {
+                        Some(val) if buildable(var.shape, var.v6, &val) => js.push(to_json(var.shape, &val)),
+                        _ => return "bad-op".into(),
+                    }
+                }
+                (row.3)(&js)
+            }
             _ => "bad-op".into(),
         }
     }
 
     fn oracle(&self, line: &str, reply: &str) -> Result<(), String> {
-        if reply == "err" || reply == "bad-op" || reply == "panic" { return Ok(()); }
+        if reply == "bad-op" { return Ok(()); }
         let w: Vec<&str> = line.split(' ').collect();
+        if reply == "panic" {
+            // `vcmp` / `vtri` run nothing but Deserialize, ==, cmp, partial_cmp and Hash; in the other ops a panic
+            // of the PARSER on the request's bytes is C02's subject, a panic after both parsed is ours
+            if w[0] == "vcmp" || w[0] == "vtri" { return Err("==, cmp or Hash panicked: the ordering is not total".into()); }
+            let args: Vec<(&str, &str)> = match w.as_slice() {
+                ["cmp", v, a, b] => vec![(*v, *a), (*v, *b)],
+                ["tri", v, a, b, c] => vec![(*v, *a), (*v, *b), (*v, *c)],
+                ["any", va, a, vb, b] => vec![(*va, *a), (*vb, *b)],
+                ["anytri", va, a, vb, b, vc, c] => vec![(*va, *a), (*vb, *b), (*vc, *c)],
+                _ => vec![],
+            };
+            for (v, h) in args {
+                if let (Some(row), Some(raw)) = (lookup(v), unhex_strict(h)) {
+                    if catch(|| { let _ = any(row.1, &raw); "ok".to_string() }) == "panic" { return Ok(()); }
+                }
+            }
+            return Err("every NLRI parsed but ==, cmp or Hash panicked: the ordering is not total".into());
+        }
+        if reply == "err" { return Ok(()); }
         let kvs: std::collections::HashMap<&str, &str> = reply.split(' ').filter_map(|t| t.split_once('=')).collect();
         let get = |k: &str| -> Result<&str, String> { kvs.get(k).copied().ok_or(format!("reply lacks {}", k)) };
         let swap = |o: &str| match o { "lt" => "gt", "gt" => "lt", _ => "eq" };
         let le = |o: &str| o != "gt";
         if reply.contains("BAD") { return Err(format!("partial_cmp / comparison operators / other buffer types disagree with cmp and ==: {}", reply)); }
         // canonical encodings of well-formed values are equal exactly when the values are
+        // (judged by the harness's own decoder/encoder, never by routecore: the hex is exactly the reference
+        // encoding of the well-formed value the reference decoder reads from it)
         let is_canon = |v: &str, h: &str| -> bool {
-            // every generated input is a reference encoding; hand-written corpus lines may not be
-            variant(v).is_some() && unhex_strict(h).is_some()
+            let (Some(var), Some(raw)) = (variant(v), unhex_strict(h)) else { return false };
+            matches!(ref_dec(var.shape, var.v6, var.ap, &raw), Some((val, n)) if n == raw.len() && ref_wf(var.shape, var.v6, &val) && ref_enc(var.shape, &val) == raw)
+        };
+        // a value given as tokens in the canonical spelling (what `show` prints)
+        let canon_toks = |v: &str, g: &[&str]| -> bool {
+            variant(v).and_then(|var| read(var.shape, var.ap, g).map(|val| show(var.shape, &val) == g.join(" "))).unwrap_or(false)
         };
         match w.as_slice() {
             ["cmp", v, a, b] | ["any", v, a, _, b] => {
@@ -366,14 +485,28 @@ impl Prop for C14 {
                 if (c == "eq") != eq { return Err(format!("cmp is {} but == is {}", c, eq)); }
                 if r != swap(c) { return Err(format!("a.cmp(b) = {} but b.cmp(a) = {}", c, r)); }
                 if eq && !hs { return Err("== values hash differently".into()); }
-                if is_canon(v, a) {
+                let vb = if w[0] == "cmp" { *v } else { w[3] };
+                if is_canon(v, a) && is_canon(vb, b) {
                     let same = same_variant && a == b;
                     if eq != same { return Err(format!("== is {} for {} encodings{}", eq, if a == b { "identical" } else { "different" },
                         if same_variant { "" } else { " of different variants" })); }
                 }
                 Ok(())
             }
-            ["tri", ..] | ["anytri", ..] => {
+            ["vcmp", v, rest @ ..] => {
+                let (eq, c, r, hs) = (get("eq")? == "true", get("cmp")?, get("rev")?, get("hash")? == "same");
+                if (c == "eq") != eq { return Err(format!("cmp is {} but == is {}", c, eq)); }
+                if r != swap(c) { return Err(format!("a.cmp(b) = {} but b.cmp(a) = {}", c, r)); }
+                if eq && !hs { return Err("== values hash differently".into()); }
+                let g: Vec<&[&str]> = rest.split(|t| *t == "/").collect();
+                if g.len() == 2 && canon_toks(v, g[0]) && canon_toks(v, g[1]) {
+                    // the tokens spell every field of the value: equal values <=> equal spellings
+                    let same = g[0] == g[1];
+                    if eq != same { return Err(format!("== is {} for values whose fields are {}", eq, if same { "identical" } else { "different" })); }
+                }
+                Ok(())
+            }
+            ["tri", ..] | ["anytri", ..] | ["vtri", ..] => {
                 let (ab, bc, ac) = (get("ab")?, get("bc")?, get("ac")?);
                 let (eab, ebc, eac) = (get("eqab")? == "true", get("eqbc")? == "true", get("eqac")? == "true");
                 if le(ab) && le(bc) && !le(ac) { return Err(format!("not transitive: a<=b ({}) and b<=c ({}) but a>c", ab, bc)); }
@@ -400,6 +533,6 @@ impl Prop for C14 {
             let c = reply.split(' ').find_map(|t| t.strip_prefix("cmp=").or(t.strip_prefix("ab="))).unwrap_or("?");
             c.to_string()
         };
-        if op == "cmp" || op == "tri" { format!("{}:{}:{}", op, v, kind) } else { format!("{}:{}", op, kind) }
+        if op == "cmp" || op == "tri" || op == "vcmp" || op == "vtri" { format!("{}:{}:{}", op, v, kind) } else { format!("{}:{}", op, kind) }
     }
 }
